@@ -14,6 +14,7 @@ REQUIRED = ["contract.xml.write_to_file", "role.static", "role.dynamic", "role.p
             "prediction.trajectory", "prediction.set", "shape.rectangle", "shape.circle", "shape.polygon", "shape.group",
             "value.exact", "value.interval", "initial.position.region", "sign.virtual.True", "sign.virtual.False",
             "light.active.False", "light.offset.positive", "goal.position.lanelets", "goal.lanelets-after-positionless-goal-state", "goal.position.shape", "lanelet.3d",
+            "stopline.near-lanelet-end", "lanelet.utm-scale-coordinates",
             "signals.both", "occupancy.interval", "intersection", "stopline.refs", "fixture-file"] + \
            ["precision.%d" % d for d in range(1, 13)] + ["initial.optional-pattern.%d" % p for p in range(16)]
 ASSUMPTIONS = ["derived data is not compared (center vertices, light colours, lanelet assignments, first occurrences)",
